@@ -151,16 +151,41 @@ def internal_agreement(R, sample):
 
 def run(R):
     R.rule = ('(Kripke structure, A g): structures with <= 2 states over {p,q} x path formulas with <= 1 operator (sampled structures in quick), '
-              'sampled formulas with 2 (quick) / 3 (thorough) operators, 3-state structures in thorough, random <= 5 states / depth <= 3; '
-              'non-trivial = temporal operator present and answer neither empty nor all states; every exclusion of a sample is certified by a concrete lasso')
+              'sampled formulas with 2 (quick) / 3 (thorough) operators, 3-state structures in thorough, random <= 5 states / depth <= 3 '
+              '(or/and nodes with 2-3 operands, 4-9 with small probability); '
+              'non-trivial = temporal operator present and answer neither empty nor all states; every exclusion of a sample is certified by a concrete lasso. '
+              'PRESENTATIONS: a sample of the cases is re-run with the states renamed (1-based / sparse / negative ints, strings, tuples with a None field, '
+              'mutually unorderable mixed types; the model stays on numbers) and with label containers that are not sets (frozenset, list, tuple). '
+              'TEXT: a sample (plus formulas built around R, U and -->) is passed as hand-written concrete syntax with multi-character atom names and must '
+              'give the answer of the object channel and of the model. LIVE STRUCTURES (mccheck.run_live): sessions on ONE Kripke object - queries '
+              'interleaved with edits of its owner through the public API (labels(s) add/discard, replace_labelling_function with set/frozenset/list/shared '
+              'containers, add_edge, a new state with its edges and labels) - with a pool of formula OBJECTS reused across the calls (now and then also '
+              'passed to CTLS/CTL.modelcheck); every answer must equal the proved model on the presentation read back at the time of the call, formula '
+              'objects must keep their trees, K must be left alone, returned sets are cleared / polluted by the caller after being recorded')
     known_finding_probe(R)
     run_print_stream(R, 'C02', 'LTL', 800 if R.thorough else 100)
     cs = cases(R)
     run_mc(R, 'LTL', cs)
     long_structures(R, 'C02', 'LTL')
-    run_mc(R, 'LTL', dense_cases(R.rng, 4000 if R.thorough else 500, 'LTL'), label='_dense')
+    dense = dense_cases(R.rng, 4000 if R.thorough else 500, 'LTL')
+    run_mc(R, 'LTL', dense, label='_dense')
     # or/and nodes with 3-5 (or 1) operands, each a distinct temporal formula: an operand in position >= 3 must count
-    run_mc(R, 'LTL', wide_cases(R.rng, 2500 if R.thorough else 250, 'LTL'), label='_wide_connectives')
+    wide = wide_cases(R.rng, 2500 if R.thorough else 250, 'LTL')
+    run_mc(R, 'LTL', wide, label='_wide_connectives')
+    rng = R.rng
+    # the same cases under other presentations of the structure (states that are not 0..n-1, label containers that are not sets)
+    run_mc(R, 'LTL', rng.sample(cs, 8000 if R.thorough else 800) + dense[::6] + wide[::5], label='_renamed_states', alias_every=0, varied=True)
+    # the text channel: multi-character atom names, every operator (binary temporal operators and --> over-weighted)
+    tx = rng.sample(cs, 3000 if R.thorough else 350) + dense[::10]
+    lit = lambda: rng.choice([('ap', 'p'), ('ap', 'q'), ('ap', 'r'), ('not', ('ap', 'p')), ('X', ('ap', 'q')), ('F', ('ap', 'r')), ('G', ('ap', 'p')), ('true',)])
+    for _ in range(1500 if R.thorough else 150):
+        a, b, c = lit(), lit(), lit()
+        g = rng.choice([('R', a, b), ('U', a, b), ('imp', a, b), ('R', a, ('U', b, c)), ('U', ('R', a, b), c), ('imp', ('R', a, b), c), ('not', ('R', a, b)),
+                        ('or', ('R', a, b), ('U', b, c)), ('and', a, ('imp', b, c), c), ('R', ('not', a), ('imp', b, c))])
+        tx.append((rand_kripke(rng, rng.randint(1, 4), aps=('p', 'q', 'r')), ('A', g)))
+    run_text(R, 'LTL', [c for c in tx if all(len(g) > 2 or g[0] not in NARY for g in subformulas(c[1]))])
+    # one structure queried, edited by its owner and queried again; formula objects reused
+    run_live(R, 'LTL', 2500 if R.thorough else 220)
     rng = R.rng
     internal_agreement(R, rng.sample(cs, 150 if not R.thorough else 1500))
     # lasso certificates for exclusions
